@@ -191,7 +191,7 @@ func genFuncK(p *Program, w *World, fn *ssa.Function, con *Contract, excepts map
 			bindResults(&env2, con, fn.Signature, r.vals)
 			for _, en := range con.Ensures {
 				t := e.elabClause(&env2, en)
-				po := e.oblig(r.st, "post", fmt.Sprintf("%s@ret%d", en.ID, ri+1), t, en.Src, fmt.Sprintf("%s:%d", shortFile(en.File), en.Line))
+				po := e.oblig(r.st, "post", fmt.Sprintf("%s@ret%d", en.ID, ri+1), t, en.Src, fmt.Sprintf("%s:%d return at %s", shortFile(en.File), en.Line, r.pos))
 				po.RetVals = r.vals
 			}
 		}
